@@ -62,6 +62,8 @@ def decide_kani(prop, kh_dir, hs, kr, tier):
             else:
                 bad.append(fc)
         u["expected_failures"] = len(allowed)
+        if allowed and not bad and not unwinding and d["status"] == "failed":
+            u["status"] = "success (only the whitelisted expected panic fired)"
         if h.expect_fail and not allowed and not bad:
             undecided.append("engine K: %s: the expected panic (%s) was not reached - vacuous harness" % (h.name, h.expect_fail))
         if d["status"] == "failed" and not d["failed_checks"]:
@@ -275,6 +277,7 @@ def build_evidence(prop, cfg, tier, seed, units, kres, vres, violations, known_h
         vacuity=dict(covers_satisfied=sum(u.get("covers_sat", 0) for u in k_units), covers_total=sum(u.get("covers_total", 0) for u in k_units),
                      verus_probes=vres.get("probes") if vres else None),
         verus_units=usum,
+        assumption_scan=(vres or {}).get("assumption_scan", []),
         undecided=undecided[:10],
         known_findings=[k.get("text") for k, _ in known_hits],
         violation_obligations=[v["obligation"] for v in violations],
